@@ -44,3 +44,77 @@ Proof.
       destruct (fold_same f1 ltac:(intros g0 r; simpl; match goal with |- context [if ?c then _ else _] => destruct c end; [apply set_bonds_same | split; reflexivity]) l1 g) as [_ A1]
     end. rewrite A3, A2, A1. reflexivity.
 Qed.
+
+(* thiele(fix_tautomers=True), model: atoms keep element / isotope / charge / radical state and the connectivity is unchanged,
+   whatever the set orders, the ring search and the freak queries are (the hydrogen counts of two ring nitrogens may change:
+   that is the recorded finding thiele-moves-H) *)
+Definition cg_same (g g' : mol) : Prop := core_of g' = core_of g /\ graph_of g' = graph_of g.
+
+Lemma cg_refl g : cg_same g g. Proof. split; reflexivity. Qed.
+Lemma cg_trans g1 g2 g3 : cg_same g1 g2 -> cg_same g2 g3 -> cg_same g1 g3.
+Proof. intros [A B] [C D]. split; congruence. Qed.
+
+Lemma set_h_atom_cg g n h : cg_same g (set_h_atom g n h).
+Proof.
+  split; [|reflexivity]. unfold core_of, set_h_atom. simpl. rewrite map_map. apply map_ext. intros [k a]. simpl.
+  destruct (k =? n); reflexivity.
+Qed.
+
+Lemma set_order_cg g n m o : cg_same g (set_order g n m o).
+Proof. split; [reflexivity | apply set_order_graph]. Qed.
+
+Lemma fold_cg {T : Type} (f : mol -> T -> mol) : (forall g x, cg_same g (f g x)) -> forall l g, cg_same g (fold_left f l g).
+Proof.
+  intros H l. induction l as [|x r IH]; intros g; simpl; [apply cg_refl|]. eapply cg_trans; [apply H | apply IH].
+Qed.
+
+Lemma set_bonds_cg g ring o : cg_same g (set_bonds g ring o).
+Proof. unfold set_bonds. apply fold_cg. intros g0 [n m]. apply set_order_cg. Qed.
+
+Lemma taut_donors_cg fuel ords dbl : forall donors g acc pyr g' acc' pyr',
+  taut_donors fuel ords dbl donors g acc pyr = (g', acc', pyr') -> cg_same g g'.
+Proof.
+  induction donors as [|st rest IH]; intros g acc pyr g' acc' pyr' E; simpl in E.
+  - injection E as E1 E2 E3. subst. apply cg_refl.
+  - destruct (taut_dfs fuel g ords dbl acc _ [] [st]) as [[path cur]|]; [|eapply IH; exact E].
+    set (g2 := fold_left (fun g0 e => let '(n, m, o) := e in set_order g0 n m o) path (set_h_atom (set_h_atom g cur 1) st 0)) in *.
+    assert (C2 : cg_same g g2).
+    { eapply cg_trans; [apply set_h_atom_cg|]. eapply cg_trans; [apply set_h_atom_cg|]. unfold g2. apply fold_cg. intros g0 [[n m] o]. apply set_order_cg. }
+    destruct (filter (fun x => negb (x =? cur)) acc).
+    + injection E as E1 E2 E3. subst. exact C2.
+    + eapply cg_trans; [exact C2 | eapply IH; exact E].
+Qed.
+
+Lemma write_cg gt (tetra rings2 freaks : list (list Z)) (seen : list Z) (fok : list bool) :
+  cg_same gt (fold_left (fun (g : mol) (rb : list Z * bool) => if snd rb then set_bonds g (fst rb) 4 else g) (combine freaks fok)
+               (fold_left (fun g r => set_bonds g r 4) rings2
+                  (fold_left (fun g r => if forallb (fun n => zmem n seen) r then set_bonds g r 1 else g) tetra gt))).
+Proof.
+  eapply cg_trans; [apply (fold_cg (fun g r => if forallb (fun n => zmem n seen) r then set_bonds g r 1 else g))|].
+  { intros g0 r. destruct (forallb (fun n => zmem n seen) r); [apply set_bonds_cg | apply cg_refl]. }
+  eapply cg_trans; [apply (fold_cg (fun g r => set_bonds g r 4))|].
+  { intros g0 r. apply set_bonds_cg. }
+  apply (fold_cg (fun (g : mol) (rb : list Z * bool) => if snd rb then set_bonds g (fst rb) 4 else g)).
+  intros g0 [r b]. simpl. destruct b; [apply set_bonds_cg | apply cg_refl].
+Qed.
+
+Ltac tail_t E HX o :=
+  cbv beta iota zeta in E;
+  match type of E with match ?X with _ => _ end = _ => destruct X as [[?d|]|] end; try discriminate E;
+    [|injection E as E; subst o; simpl; exact HX];
+  match type of E with (if ?c then _ else _) = _ => destruct c end; [injection E as E; subst o; simpl; exact HX|];
+  injection E as E; subst o; simpl; eapply cg_trans; [exact HX | apply write_cg].
+
+Theorem thiele_model_t_preserves : forall g sssr ords rings2 fok o,
+  thiele_model_t g sssr ords rings2 fok = Ok o -> core_of (o_mol o) = core_of g /\ graph_of (o_mol o) = graph_of g.
+Proof.
+  intros g sssr ords rings2 fok o E. change (cg_same g (o_mol o)). unfold thiele_model_t in E.
+  set (st := fold_left (ring_step_t g) sssr (mkTh1t (mkTh1 [] [] [] []) [] [])) in *.
+  destruct (t_rings (tt_base st)) as [|r0 rr]; [injection E as E; subst o; simpl; apply cg_refl|].
+  destruct (tt_acc st) as [|a0 ar].
+  - pose proof (cg_refl g) as HX. tail_t E HX o.
+  - destruct (tt_don st) as [|d0 dr].
+    + pose proof (cg_refl g) as HX. tail_t E HX o.
+    + destruct (taut_donors _ ords _ (d0 :: dr) g (a0 :: ar) _) as [[gt a'] py] eqn:TD.
+      pose proof (taut_donors_cg _ _ _ _ _ _ _ _ _ _ TD) as HX. tail_t E HX o.
+Qed.
